@@ -29,6 +29,7 @@ import GeoProofs.Lemmas.RELMPoint4
 import GeoProofs.Lemmas.RELMPointPoint
 import GeoProofs.Lemmas.RELMMultiPoint
 import GeoProofs.Lemmas.RELMOrder5
+import GeoProofs.Lemmas.RELMSym6
 import Mathlib.Tactic.NormNum
 
 namespace Geo.Proofs.C01
@@ -1171,6 +1172,64 @@ example : mutualFold []
     (fun e he => (freshGraph_wf 0 _ e he).1) (fun e he => (freshGraph_wf 0 _ e he).2)
     (fun e he => (freshGraph_wf 1 _ e he).1) (fun e he => (freshGraph_wf 1 _ e he).2) _
     (fun pr h => List.mem_reverse.1 h) (fun pr h _ => List.mem_reverse.2 h)
+
+/-- [T] **the transpose law of the implementation** (exact arithmetic): `relate(b, a) = relate(a, b)ᵀ`,
+and the code panics for one order iff it does for the other — for *all* operands, valid or not,
+whose edge ends all have a direction (`EndsNonZero`: every edge end `EdgeEndBuilder` makes has non-zero
+length; it fails only when some `Line` has equal end points).
+Full statement (no hypothesis): false — `relateImpl_transpose_fails_witness` (a zero-length `Line`).
+Ingredients (GeoProofs/Lemmas/RELMDir, RELMStar, RELMSym1–6): `compare_direction` is a strict weak order
+on the edge ends of a node, so a star does not depend on the insertion order of its edge ends; the label of
+a bundle does not depend on the order of its edge ends; bundle labelling, side-label propagation, the
+collapse flag and the fill act on one label slot at a time, so they commute across the slots and are
+exchanged by `Label::swap_args`; `line_intersection` is symmetric (C11 `li_symm`) and the intersection
+lists are canonical, so the mutual phase is symmetric; a sorted node map is determined by its look-ups. -/
+theorem relateImpl_transpose_partial (a b : Geom) (hnz : EndsNonZero a b) :
+    relateImpl? b a = (relateImpl? a b).map IM.transpose := Geo.Proofs.RELM.relateImpl_transpose a b hnz
+
+/-- a self-crossing line string against a polygon with a hole sharing a vertex and an edge with it -/
+example : relateImpl? (.polygon ⟨[⟨0, 0⟩, ⟨4, 0⟩, ⟨4, 4⟩, ⟨0, 4⟩, ⟨0, 0⟩], [[⟨1, 1⟩, ⟨2, 1⟩, ⟨1, 2⟩, ⟨1, 1⟩]]⟩)
+      (.lineString [⟨0, 0⟩, ⟨2, 2⟩, ⟨2, 0⟩, ⟨0, 2⟩, ⟨1, 1⟩, ⟨1, 2⟩]) =
+    (relateImpl? (.lineString [⟨0, 0⟩, ⟨2, 2⟩, ⟨2, 0⟩, ⟨0, 2⟩, ⟨1, 1⟩, ⟨1, 2⟩])
+      (.polygon ⟨[⟨0, 0⟩, ⟨4, 0⟩, ⟨4, 4⟩, ⟨0, 4⟩, ⟨0, 0⟩], [[⟨1, 1⟩, ⟨2, 1⟩, ⟨1, 2⟩, ⟨1, 1⟩]]⟩)).map IM.transpose :=
+  relateImpl_transpose_partial _ _ (endsNonZero_of_B (by decide +kernel))
+
+/-- [T] `EdgeEndKey::compare_direction` is a strict weak order on the edge ends of one node: it is
+decided by the quadrant and the sign of the cross product of the direction vectors (`DirLt` /
+`DirEq`), which are transitive (`DirLt.trans`, `DirEq.trans`, `DirLt.of_eq_left/right`). -/
+theorem impl_compareDirection_spec (x y : EdgeEnd) (h0 : x.c0 = y.c0) (hx : NonZero (dirOf x)) (hy : NonZero (dirOf y)) :
+    (cmpDir Arith.exact x y = .lt ↔ DirLt (dirOf x) (dirOf y)) ∧
+    (cmpDir Arith.exact x y = .eq ↔ DirEq (dirOf x) (dirOf y)) ∧
+    (cmpDir Arith.exact x y = .gt ↔ DirLt (dirOf y) (dirOf x)) := cmpDir_spec x y h0 hx hy
+
+theorem impl_direction_order_transitive {u v w : Pt} (hu : NonZero u) (hv : NonZero v) (hw : NonZero w)
+    (h1 : DirLt u v) (h2 : DirLt v w) : DirLt u w := h1.trans hu hv hw h2
+
+example : cmpDir Arith.exact ⟨⟨1, 1⟩, ⟨3, 2⟩, Label.emptyLine⟩ ⟨⟨1, 1⟩, ⟨2, 3⟩, Label.emptyLine⟩ = .lt :=
+  (impl_compareDirection_spec ⟨⟨1, 1⟩, ⟨3, 2⟩, Label.emptyLine⟩ ⟨⟨1, 1⟩, ⟨2, 3⟩, Label.emptyLine⟩ rfl
+    (Or.inl (by norm_num [dirOf])) (Or.inl (by norm_num [dirOf]))).1.2
+    (Or.inr ⟨by decide +kernel, by norm_num [vcross, dirOf]⟩)
+
+/-- [T] **the star of a node does not depend on the order in which its edge ends are inserted**: for
+two orders of the same edge ends (all starting at `o`, with a direction) the bundles come out in the
+same order of directions, each with the same edge ends up to their order (`StarEq`). -/
+theorem impl_star_order_independent {o : Pt} {l l' : List EdgeEnd} (hp : l.Perm l') (hl : ∀ x ∈ l, GoodEnd o x) :
+    StarEq (insAll [] l) (insAll [] l') :=
+  insAll_perm hp hl (fun _ h => by cases h) (fun _ h => by cases h) (StarEq.refl _)
+
+/-- [T] the label `EdgeEndBundle::into_labeled` computes does not depend on the order of the edge ends
+of the bundle, and for the edge ends with swapped labels it is the swapped label. -/
+theorem impl_bundleLabel_perm {ends ends' : List EdgeEnd} (h : ends.Perm ends') : bundleLabel ends = bundleLabel ends' :=
+  bundleLabel_perm h
+
+theorem impl_bundleLabel_swap (ends : List EdgeEnd) : bundleLabel (ends.map swapE) = (bundleLabel ends).swap :=
+  bundleLabel_swap ends
+
+/-- [T] `compute_labeling` for the operands in the other order gives the swapped labels (the two
+`propagate_side_labels` calls commute, so do the two fills). -/
+theorem impl_starLabels_swap (a b : Geom) (c : Pt) (star : List Bundle) :
+    starLabels b a c (star.map swapB) = (starLabels a b c star).map (·.map Label.swap) :=
+  starLabels_swap a b c star
 
 end Impl
 
